@@ -36,47 +36,32 @@ func Explore(o Options, mk func() (main func(), done func(x *Exec))) Stats {
 	if o.Shards <= 0 {
 		o.Shards = 1
 	}
-	// Subtrees are dealt out round robin at a depth where they are small (a free alternative - the
-	// other thread first when a thread ends - roots a subtree as large as the whole search, so depth 1
-	// balances badly). Nodes above that depth are executed by every shard (cheap) and counted by shard 0.
-	split := o.SplitDepth
-	if split <= 0 {
-		split = 1
+	// Subtrees are dealt out round robin where they are small: at the edges that add the splitT-th
+	// bounded deviation (preemption or data deviation). Free alternatives (which thread runs when the
+	// running one blocked or ended) cost nothing and can root subtrees as large as the whole search,
+	// so they never define a unit: nodes with fewer than splitT bounded deviations - the root, its
+	// free variants and, for splitT = 2, everything one deviation away - are executed by every shard
+	// (a few thousand cheap executions at most) and counted by shard 0 only.
+	splitT := o.SplitDepth
+	if splitT <= 0 {
+		splitT = 1
 		if o.PreemptBound+o.DataBound >= 2 {
-			split = 2
+			splitT = 2
 		}
 	}
 	top := 0
-	var rec func(prefix []int, depth int)
-	rec = func(prefix []int, depth int) {
+	var rec func(prefix []int)
+	rec = func(prefix []int) {
 		if o.Stop != nil && o.Stop() {
 			st.Stopped = true
 			return
 		}
 		main, done := mk()
 		x := Run(prefix, o.Horizon, main)
-		skipRoot := depth < split && o.Shard != 0
-		if !skipRoot {
-			st.Executions++
-			st.Steps += int64(len(x.Steps))
-			st.NewSteps += int64(len(x.Steps) - len(prefix))
-			if len(x.Steps) > st.MaxSteps {
-				st.MaxSteps = len(x.Steps)
-			}
-			if x.Preemptions > st.MaxPreempt {
-				st.MaxPreempt = x.Preemptions
-			}
-			if x.Deadlock {
-				st.Deadlocks++
-			}
-			if x.Aborted {
-				st.Aborted++
-			}
-			done(x)
-		}
 		for _, p := range x.Panics {
 			if len(p) > 17 && p[:17] == "REPLAY-DIVERGENCE" {
 				st.Divergences++
+				done(x)
 				return
 			}
 		}
@@ -95,9 +80,29 @@ func Explore(o Options, mk func() (main func(), done func(x *Exec))) Stats {
 				}
 			}
 		}
+		shared := pre+dat < splitT
+		if !(shared && o.Shard != 0) {
+			st.Executions++
+			st.Steps += int64(len(x.Steps))
+			st.NewSteps += int64(len(x.Steps) - len(prefix))
+			if len(x.Steps) > st.MaxSteps {
+				st.MaxSteps = len(x.Steps)
+			}
+			if x.Preemptions > st.MaxPreempt {
+				st.MaxPreempt = x.Preemptions
+			}
+			if x.Deadlock {
+				st.Deadlocks++
+			}
+			if x.Aborted {
+				st.Aborted++
+			}
+			done(x)
+		}
 		for i := len(prefix); i < len(x.Steps); i++ {
 			s := x.Steps[i]
 			for alt := 1; alt < s.N; alt++ {
+				bounded := s.Data || !s.Free
 				switch {
 				case s.Data:
 					if dat+1 > o.DataBound {
@@ -108,7 +113,7 @@ func Explore(o Options, mk func() (main func(), done func(x *Exec))) Stats {
 						continue
 					}
 				}
-				if depth == split-1 {
+				if bounded && pre+dat+1 == splitT {
 					k := top
 					top++
 					if k%o.Shards != o.Shard {
@@ -120,10 +125,10 @@ func Explore(o Options, mk func() (main func(), done func(x *Exec))) Stats {
 					np[k] = x.Steps[k].Chosen
 				}
 				np[i] = alt
-				rec(np, depth+1)
+				rec(np)
 			}
 		}
 	}
-	rec(nil, 0)
+	rec(nil)
 	return st
 }
